@@ -219,9 +219,18 @@ type faultT struct {
 // another type of this process runs after this fault.
 func injectFault() {
 	for i := 0; i < 2; i++ {
-		func() {
+		done := make(chan struct{})
+		go func() {
+			defer close(done)
 			defer func() { _ = recover() }()
 			_, _ = binding.Query[faultT](url.Values{})
 		}()
+		select {
+		case <-done:
+		case <-time.After(2 * time.Second):
+			// the second bind of the faulty type does not return: the cases that follow run under their own
+			// watchdog (runTimed / runConcurrent) and report what a request would see
+			return
+		}
 	}
 }
